@@ -67,6 +67,7 @@ type Obs struct {
 	Statuses map[string]string `json:"statuses"`
 	StartErr string            `json:"start_err,omitempty"`
 	Settled  bool              `json:"settled"` // backends closed all connections before the final read
+	Ms       int64             `json:"ms"`
 }
 
 func marker(cid int) string { return fmt.Sprintf("#cid-%d#", cid) }
@@ -193,6 +194,8 @@ func abortingClient(addr string, raw []byte) ReqObs {
 
 func Run(sc *Scenario) *Obs {
 	obs := &Obs{}
+	t0 := time.Now()
+	defer func() { obs.Ms = time.Since(t0).Milliseconds() }()
 	backends := make([]*stack.Backend, len(sc.EPs))
 	eps := make([]stack.EP, len(sc.EPs))
 	for i, e := range sc.EPs {
@@ -213,6 +216,21 @@ func Run(sc *Scenario) *Obs {
 	for i, e := range sc.EPs {
 		if e.Open {
 			openBreaker(s, sc, i, backends)
+		}
+	}
+	if sc.Route != "proxy" {
+		// the translator route resolves the model through the registry: catalogue "m1" on every endpoint
+		if reg, err := s.Disc.GetRegistry(); err == nil {
+			for _, b := range backends {
+				reg.RegisterModels(context.Background(), b.URL(), []*domain.ModelInfo{{Name: "m1", Type: "llm", LastSeen: time.Now()}})
+			}
+			deadline := time.Now().Add(2 * time.Second)
+			for time.Now().Before(deadline) {
+				if got, _ := reg.GetEndpointsForModel(context.Background(), "m1"); len(got) == len(backends) {
+					break
+				}
+				time.Sleep(5 * time.Millisecond)
+			}
 		}
 	}
 	gate := make(chan struct{})
@@ -238,6 +256,11 @@ func Run(sc *Scenario) *Obs {
 			st = domain.EndpointStatus(e.Status)
 		}
 		s.SetStatus(e.Name, st)
+	}
+	// connections the health checker keeps alive are not traffic
+	var idle int64
+	for _, b := range backends {
+		idle += b.OpenConns()
 	}
 	b0c := read(s, sc, backends, nil)
 	b0 := &baseline{g: b0c.Global, e: b0c.Engine, pe: b0c.PerEP, tr: b0c.Translator, mo: b0c.Models}
@@ -304,7 +327,7 @@ func Run(sc *Scenario) *Obs {
 		for _, b := range backends {
 			open += b.OpenConns()
 		}
-		if open == 0 {
+		if open <= idle {
 			obs.Settled = true
 			break
 		}
